@@ -331,11 +331,20 @@ type execWorld struct {
 	arrived  int
 	allIn    chan struct{}
 	onAllIn  func()
-	hashes   []hashRec
-	subs     []subRec
-	subCh    chan struct{}
-	hub      *hub
-	note     []string
+	// the barrier is given up when no further goroutine arrives (an executor that asks for its digests
+	// in another way, e.g. all of them from the goroutine of Execute itself, would wait for ever)
+	lastArrival time.Time
+	barrierOff  bool
+	// how the Execute calls ended
+	ended   int
+	allDone chan struct{}
+	crashed bool
+	info    []string // remarks that do not make the observation incomplete
+	hashes  []hashRec
+	subs    []subRec
+	subCh   chan struct{}
+	hub     *hub
+	note    []string
 }
 
 func (w *execWorld) addNote(s string) {
@@ -350,10 +359,18 @@ func (w *execWorld) isExecuted(p *transfer.TransferProposal) (bool, error) {
 	return w.executed[keyOfProp(p)], nil
 }
 
-// arrive: barrier of all batch goroutines of all relayers at the start of ProposalsHash.
+// arrive: barrier of all batch goroutines of all relayers at the start of ProposalsHash.  On the repository's
+// code all of them arrive within milliseconds; the barrier is given up (for the rest of the case) when none
+// has arrived for 5 s.
 func (w *execWorld) arrive() {
+	start := time.Now()
 	w.mu.Lock()
+	if w.barrierOff {
+		w.mu.Unlock()
+		return
+	}
 	w.arrived++
+	w.lastArrival = start
 	if w.arrived == w.expected {
 		if w.onAllIn != nil {
 			w.onAllIn()
@@ -361,10 +378,51 @@ func (w *execWorld) arrive() {
 		close(w.allIn)
 	}
 	w.mu.Unlock()
-	select {
-	case <-w.allIn:
-	case <-time.After(30 * time.Second):
-		w.addNote("not all batch goroutines reached ProposalsHash")
+	for {
+		select {
+		case <-w.allIn:
+			return
+		case <-time.After(250 * time.Millisecond):
+		}
+		w.mu.Lock()
+		if !w.barrierOff && (time.Since(w.lastArrival) > 5*time.Second || time.Since(start) > 30*time.Second) {
+			// (the barrier only selects the schedule; an executor that obtains its digests in another way is
+			// judged by its sessions like any other)
+			w.barrierOff = true
+			w.info = append(w.info, "not all batch goroutines reached ProposalsHash: barrier given up")
+			if w.onAllIn != nil {
+				w.onAllIn()
+			}
+		}
+		off := w.barrierOff
+		w.mu.Unlock()
+		if off {
+			return
+		}
+	}
+}
+
+func firstLine(s string) string {
+	if i := strings.IndexByte(s, '\n'); i >= 0 {
+		s = s[:i]
+	}
+	if len(s) > 200 {
+		s = s[:200]
+	}
+	return s
+}
+
+// executeEnded: one relayer's Execute returned or (p != nil) ended in a panic.
+func (w *execWorld) executeEnded(p interface{}) {
+	w.mu.Lock()
+	defer w.mu.Unlock()
+	if p != nil {
+		w.crashed = true
+		w.note = append(w.note, "Executor.Execute panicked: "+firstLine(fmt.Sprint(p)))
+	}
+	w.ended++
+	if w.ended == relayers {
+		close(w.allDone)
 	}
 }
 
@@ -565,7 +623,7 @@ func runExec(c Case) Obs {
 	sc, st := subexec.VerifC02SetPeriods(25*time.Millisecond, 30*time.Minute)
 	defer subexec.VerifC02SetPeriods(sc, st)
 
-	w := &execWorld{executed: map[pkey]bool{}, flip: map[pkey]bool{}, allIn: make(chan struct{}), subCh: make(chan struct{}, 64)}
+	w := &execWorld{executed: map[pkey]bool{}, flip: map[pkey]bool{}, allIn: make(chan struct{}), subCh: make(chan struct{}, 64), allDone: make(chan struct{})}
 	for _, i := range c.Executed {
 		w.executed[pkey{c.Props[i].Origin, c.Props[i].Nonce}] = true
 	}
@@ -636,7 +694,6 @@ func runExec(c Case) Obs {
 		defer w.onAllIn()
 	}
 
-	done := make(chan error, relayers)
 	for k := 0; k < relayers; k++ {
 		h := newFakeHost(fixPeers[k], fixPeers)
 		ep := w.hub.join(fixPeers[k])
@@ -660,7 +717,11 @@ func runExec(c Case) Obs {
 			pl := pallet.NewPallet(&subclient.SubstrateClient{ChainID: big.NewInt(c.Chain)})
 			execute = subexec.NewExecutor(h, ep, coord, &subWorldPallet{p: pl, w: w}, fetcher, nil, &sync.RWMutex{}).Execute
 		}
-		go func() { done <- execute(ps) }()
+		go func() {
+			// conc re-raises the panic of a batch goroutine from Wait, i.e. from Execute
+			defer func() { w.executeEnded(recover()) }()
+			_ = execute(ps)
+		}()
 	}
 
 	// one session at a time
@@ -679,6 +740,12 @@ func runExec(c Case) Obs {
 			}
 			select {
 			case <-w.subCh:
+			case <-w.allDone:
+				// nobody is left who could submit (on the repository's code Execute does not return while a
+				// session of it is waiting for its turn)
+				w.addNote("every Execute had ended while session " + sids[k] + " was open and nothing was submitted")
+				complete = false
+				got = true
 			case <-deadline:
 				w.addNote("no submission while session " + sids[k] + " was open")
 				complete = false
@@ -692,6 +759,11 @@ func runExec(c Case) Obs {
 		time.Sleep(20 * time.Millisecond)
 		w.mu.Lock()
 		seen = len(w.subs)
+		// the submission is on the chain: the batch of this session counts as executed from now on (the
+		// goroutines of the session end at their next execution check)
+		for _, p := range batches[k] {
+			w.executed[pkey{p.Origin, p.Nonce}] = true
+		}
 		w.mu.Unlock()
 	}
 	w.hub.open(len(sids))
@@ -702,14 +774,11 @@ func runExec(c Case) Obs {
 		w.executed[pkey{p.Origin, p.Nonce}] = true
 	}
 	w.mu.Unlock()
-	for k := 0; k < relayers; k++ {
-		select {
-		case <-done:
-		case <-time.After(30 * time.Second):
-			w.addNote("Executor.Execute did not return")
-			complete = false
-			k = relayers
-		}
+	select {
+	case <-w.allDone:
+	case <-time.After(30 * time.Second):
+		w.addNote("Executor.Execute did not return")
+		complete = false
 	}
 
 	w.mu.Lock()
@@ -758,7 +827,8 @@ func runExec(c Case) Obs {
 	}
 	sort.SliceStable(o.Sessions, func(i, j int) bool { return o.Sessions[i].Sid < o.Sessions[j].Sid })
 	o.Complete = complete && len(w.note) == 0
-	o.Note = strings.Join(w.note, "; ")
+	o.Crashed = w.crashed
+	o.Note = strings.Join(append(w.note, w.info...), "; ")
 	return o
 }
 
